@@ -282,3 +282,24 @@ def c01_dtypes(ctx, dim, dtype):
         # voxel centres as float32 coordinates still fall into their voxel (well inside: float32 rounding is far below half a voxel here)
         Vc = np.asarray(cs.voxel((np.asarray(cs.coordinate(darsia.VoxelCenterArray(V + 0.5)), dtype=float)).astype(np.float32)), dtype=int)
         ctx.ensure("voxel(centre coordinates as float32) == the voxel", bool(np.array_equal(Vc, V)))
+
+
+@ob("C01.two_systems", cases=product_cases(dim=(1, 2, 3)), mods=MODS, funcs=FUNCS,
+    cite="For every image (1 to 3 spatial dimensions, any shape, physical dimensions and origin) ... one voxel step along a matrix axis moves the coordinate by exactly one voxel size",
+    note="a coordinate system that is HELD while coordinate systems of OTHER images are created (other shape, size, origin) still describes its own image - no table shared between "
+         "CoordinateSystem objects (after seed C01_i: per-instance dictionary replaced by a class-level one)")
+def c01_two_systems(ctx, dim):
+    img, n, d, o = build_image(ctx, dim, "scalar", True)
+    cs = img.coordinatesystem                                  # held
+    other, n2, d2, o2 = build_image(ctx, dim, "scalar", True, tag="B")
+    cs_other = other.coordinatesystem                          # created afterwards, for another image
+    other.opposite_corner
+    v = ctx.ints("v", dim, sample=(-3, 8))
+    ctx.ensure("held system: coordinate(v) == spec of ITS image", eq(list(cs.coordinate(list(v))), spec_coordinate(dim, n, list(d), list(o), v)))
+    ctx.ensure("later system: coordinate(v) == spec of its image", eq(list(cs_other.coordinate(list(v))), spec_coordinate(dim, n2, list(d2), list(o2), v)))
+    th = ctx.reals("th", dim, sample=(0.0, 1.0))
+    for t in th:
+        ctx.assume(and_(t > 0, t < 1))
+    ctx.ensure("held system: voxel(coordinate(v + theta)) == v", eq(list(cs.voxel(cs.coordinate(np.array([v[m] + th[m] for m in range(dim)])))), list(v)))
+    for m in range(dim):
+        ctx.ensure(f"held system: voxel size of Cartesian axis for matrix axis {m} is its image's", eq(cs.voxel_size["xyz"[SPEC[dim][m][0]]], d[m] / n[m]))
